@@ -4,9 +4,15 @@ package main
 
 import (
 	"bufio"
+	"context"
 	"fmt"
 	"sort"
 	"strings"
+	"sync"
+	"testing/synctest"
+	"time"
+
+	"github.com/refraction-networking/uquic/qlogwriter"
 
 	quic "github.com/refraction-networking/uquic"
 	u "github.com/refraction-networking/uquic/internal/verifutil"
@@ -18,9 +24,17 @@ func init() { units["streamsglue"] = runStreamsGlue }
 // server and client Conns, with and without a qlog tracer, are fed 1-RTT packet payloads of 1-4
 // stream-related frames, in particular [offending frame][valid STREAM frame].
 //
-// CASE term: GlueCase client tracer maxBidi maxUni [[frames of packet 1]; ...] [verdicts] ib iu.
+// Between the packets the application accepts streams, abandons streams it holds (CancelRead +
+// CancelWrite, the reset is acknowledged), opens streams; the handshake applies / restores
+// transport parameters; a client has 0-RTT rejected (dropEncryptionLevel) and moves on
+// (UseResetMaps). Streams are thereby COMPLETED through the connection: Conn.onStreamCompleted ->
+// streamsMap.DeleteStream -> MAX_STREAMS queued in the real framer.
+//
+// CASE term: GlueCase client tracer maxBidi maxUni [steps] [(code, control frames) per step] ib iu ob ou.
 // The model's verdict for the frame sequence (StreamsMap model, frames in order, first error ends
-// the packet and the connection) must be the connection's close error, tracer or not.
+// the packet and the connection) must be the connection's close error, tracer or not; the
+// MAX_STREAMS / STREAMS_BLOCKED frames found in the framer after each step and the maps' fields
+// must be the model's.
 //
 // MONITOR (model-independent, from stream-ID arithmetic and the advertised limits only): a frame
 // naming a peer stream beyond the advertised limit => the packet fails with STREAM_LIMIT_ERROR; a
@@ -35,10 +49,11 @@ const (
 	smgMaxStreamData
 	smgPing
 	smgMaxStreams
+	smgStreamFin
 )
 
-var smgNames = []string{"STREAM", "RESET_STREAM", "STREAM_DATA_BLOCKED", "STOP_SENDING", "MAX_STREAM_DATA", "PING", "MAX_STREAMS"}
-var smgCoq = []string{"GStream", "GResetStream", "GStreamDataBlocked", "GStopSending", "GMaxStreamData", "GPing", "GMaxStreams"}
+var smgNames = []string{"STREAM", "RESET_STREAM", "STREAM_DATA_BLOCKED", "STOP_SENDING", "MAX_STREAM_DATA", "PING", "MAX_STREAMS", "STREAM+FIN"}
+var smgCoq = []string{"GStream", "GResetStream", "GStreamDataBlocked", "GStopSending", "GMaxStreamData", "GPing", "GMaxStreams", "GStreamFin"}
 
 func smgFrameCoq(f quic.VerifSGFrame) string {
 	switch f.Kind {
@@ -60,213 +75,568 @@ func smgFrameText(f quic.VerifSGFrame) string {
 	return fmt.Sprintf("%s(%d)", smgNames[f.Kind], f.ID)
 }
 
-// smgExpect: verdict of one frame from ID arithmetic and the advertised limits; opened: number
-// of streams the peer has opened so far per type (updated for frames that open streams).
-// 0 ok, 1 STREAM_STATE_ERROR, 2 STREAM_LIMIT_ERROR.
-func smgExpect(client bool, limit [2]int64, opened *[2]int64, f quic.VerifSGFrame) int {
-	if f.Kind == smgPing || f.Kind == smgMaxStreams {
+// smgSpec is the monitors' own bookkeeping (stream-ID arithmetic, what was advertised, what the
+// application did) - no model involved.
+type smgSpec struct {
+	client  bool
+	limit   [2]int64 // configured incoming limits
+	adv     [2]int64 // advertised to the peer: limit + completed peer streams
+	opened  [2]int64 // streams the peer opened
+	out     [2]int64 // streams we opened
+	peerMax [2]int64 // what the peer allows us
+	blocked [2]map[int64]bool
+	cancel  map[int64]bool
+	final   map[int64]bool
+	done    map[int64]bool
+	reset   bool
+}
+
+func (sp *smgSpec) local(id int64) bool { return (id%2 == 0) == sp.client }
+
+// complete: a stream is completed once when it was abandoned and (if it has a receive half) its
+// final size is known; a completed peer stream frees a slot.
+func (sp *smgSpec) complete(id int64) {
+	uni := id%4 >= 2
+	hasRecv := !(uni && sp.local(id))
+	if sp.cancel[id] && (!hasRecv || sp.final[id]) && !sp.done[id] {
+		sp.done[id] = true
+		if !sp.local(id) {
+			sp.adv[b2i(uni)]++
+		}
+	}
+}
+
+// expect: verdict of one frame; 0 ok, 1 STREAM_STATE_ERROR, 2 STREAM_LIMIT_ERROR.
+func (sp *smgSpec) expect(f quic.VerifSGFrame) int {
+	switch f.Kind {
+	case smgPing:
+		return 0
+	case smgMaxStreams:
+		if t := b2i(f.Uni); f.ID > sp.peerMax[t] {
+			sp.peerMax[t] = f.ID
+		}
 		return 0
 	}
 	uni := f.ID%4 >= 2
-	local := (f.ID%2 == 0) == client
-	recv := f.Kind <= smgStreamDataBlocked
+	local := sp.local(f.ID)
+	recv := f.Kind <= smgStreamDataBlocked || f.Kind == smgStreamFin
 	t := b2i(uni)
 	switch {
 	case uni && local && recv, uni && !local && !recv:
 		return 1 // wrong direction
 	case local:
-		return 1 // we never opened a stream
+		if f.ID/4 >= sp.out[t] {
+			return 1 // we never opened it
+		}
+	default:
+		n := f.ID/4 + 1
+		if n > sp.adv[t] {
+			return 2
+		}
+		if n > sp.opened[t] {
+			sp.opened[t] = n
+		}
 	}
-	n := f.ID/4 + 1
-	if n > limit[t] {
-		return 2
-	}
-	if n > opened[t] {
-		opened[t] = n
+	if (f.Kind == smgStreamFin || f.Kind == smgResetStream) && !sp.done[f.ID] {
+		sp.final[f.ID] = true
+		sp.complete(f.ID)
 	}
 	return 0
+}
+
+func (sp *smgSpec) clone() *smgSpec {
+	c := *sp
+	c.blocked = [2]map[int64]bool{{}, {}}
+	c.cancel, c.final, c.done = map[int64]bool{}, map[int64]bool{}, map[int64]bool{}
+	for t := 0; t < 2; t++ {
+		for k := range sp.blocked[t] {
+			c.blocked[t][k] = true
+		}
+	}
+	for k := range sp.cancel {
+		c.cancel[k] = true
+	}
+	for k := range sp.final {
+		c.final[k] = true
+	}
+	for k := range sp.done {
+		c.done[k] = true
+	}
+	return &c
+}
+
+// one step of a case
+type smgStep struct {
+	kind   int // 0 packet, 1 accept, 2 abandon, 3 open, 4 params, 5 reject 0-RTT, 6 use reset maps, 7 abandon a stream of before the rejection
+	frames []quic.VerifSGFrame
+	uni    bool
+	pick   int // abandon: which held stream
+	nb, nu int64
+	rsa    bool
 }
 
 type smgCase struct {
 	client, tracer bool
 	limit          [2]int64
-	pkts           [][]quic.VerifSGFrame
+	steps          []smgStep
 }
 
-func (c smgCase) text(upto int) string {
-	var ps []string
-	for i, p := range c.pkts {
-		if i > upto {
-			break
-		}
-		fs := make([]string, len(p))
-		for j, f := range p {
-			fs[j] = smgFrameText(f)
-		}
-		ps = append(ps, "["+strings.Join(fs, " ")+"]")
+func smgFramesText(p []quic.VerifSGFrame) string {
+	fs := make([]string, len(p))
+	for j, f := range p {
+		fs[j] = smgFrameText(f)
 	}
-	return fmt.Sprintf("client=%v qlog-tracer=%v MaxIncomingStreams=%d MaxIncomingUniStreams=%d packets=%s", c.client, c.tracer, c.limit[0], c.limit[1], strings.Join(ps, " "))
+	return "[" + strings.Join(fs, " ") + "]"
+}
+
+type smgHeld struct {
+	handle int
+	id     int64
 }
 
 func smgRun(w *bufio.Writer, c smgCase, dist map[string]int, failed map[string]bool) {
-	monfail := func(key, desc, detail string) {
+	var hist []string
+	text := func() string {
+		return fmt.Sprintf("client=%v qlog-tracer=%v MaxIncomingStreams=%d MaxIncomingUniStreams=%d steps=%s", c.client, c.tracer, c.limit[0], c.limit[1], strings.Join(hist, " "))
+	}
+	monfail := func(key, desc string) {
 		if failed[key] {
 			return
 		}
 		failed[key] = true
-		fmt.Fprintf(w, "MONFAIL\tstreamsglue/%s\t%s\t%s\n", key, desc, detail)
+		fmt.Fprintf(w, "MONFAIL\tstreamsglue/%s\t%s\t%s\n", key, desc, text())
 	}
 	v, err := quic.NewVerifSGConn(c.client, c.tracer, c.limit[0], c.limit[1])
 	if err != nil {
-		monfail("construct", "cannot construct the connection: "+err.Error(), c.text(-1))
+		monfail("construct", "cannot construct the connection: "+err.Error())
 		return
 	}
 	defer v.Shutdown()
 	if v.HasTracer() != c.tracer {
-		monfail("tracer", "the connection does not record qlog events although a trace was given (or vice versa)", c.text(-1))
+		monfail("tracer", "the connection does not record qlog events although a trace was given (or vice versa)")
 	}
-	var opened [2]int64
-	var verdicts []int64
-	var pk []string
-	errSeen := false
-	for i, p := range c.pkts {
-		// expected verdict of the packet: the first frame that is not ok
-		want, bad := 0, -1
-		op := opened
-		for j, f := range p {
-			if e := smgExpect(c.client, c.limit, &op, f); e != 0 {
-				want, bad = e, j
-				break
+	sp := &smgSpec{client: c.client, limit: c.limit, adv: c.limit, blocked: [2]map[int64]bool{{}, {}},
+		cancel: map[int64]bool{}, final: map[int64]bool{}, done: map[int64]bool{}}
+	var held, old []smgHeld
+	var steps, outs []string
+	names := []string{"no error", "STREAM_STATE_ERROR", "STREAM_LIMIT_ERROR"}
+	failedPacket := false
+	completions, packets := 0, 0
+	emit := func(step string, code int64, frames []quic.VerifSMFrame) {
+		steps = append(steps, step)
+		outs = append(outs, u.Pair(u.Z(code), smFrames(frames)))
+		// frame monitors: MAX_STREAMS strictly increasing and equal to limit + completed streams;
+		// STREAMS_BLOCKED once per limit and naming the peer's limit
+		for _, f := range frames {
+			t := b2i(f.Uni)
+			if f.Blocked {
+				if f.Num != sp.peerMax[t] {
+					monfail("blocked/wrong-limit", fmt.Sprintf("STREAMS_BLOCKED names limit %d, the peer's limit is %d", f.Num, sp.peerMax[t]))
+				}
+				if sp.blocked[t][f.Num] {
+					monfail("blocked/duplicate", fmt.Sprintf("second STREAMS_BLOCKED for limit %d", f.Num))
+				}
+				sp.blocked[t][f.Num] = true
+			} else {
+				completions++
 			}
 		}
-		class, code, _, msg := v.Packet(p)
-		verdicts = append(verdicts, int64(class))
-		fs := make([]string, len(p))
-		for j, f := range p {
-			fs[j] = smgFrameCoq(f)
-		}
-		pk = append(pk, u.List(fs))
-		if code == -2 {
-			monfail("panic", msg, c.text(i))
-		}
-		names := []string{"no error", "STREAM_STATE_ERROR", "STREAM_LIMIT_ERROR"}
-		switch {
-		case want != 0 && class == 0:
-			monfail("error-masked", fmt.Sprintf("%s must close the connection with %s, but the packet was handled without error", smgFrameText(p[bad]), names[want]), c.text(i))
-		case want != class:
-			wn := "error class " + fmt.Sprint(want)
-			if want < 3 {
-				wn = names[want]
+	}
+	checkCredit := func(frames []quic.VerifSMFrame, advBefore [2]int64) {
+		// every slot freed in this step is advertised by one MAX_STREAMS, in increasing order
+		cur := advBefore
+		for _, f := range frames {
+			if f.Blocked {
+				continue
 			}
-			monfail("verdict", fmt.Sprintf("packet %d: expected %s, got error class %d (code %d: %s)", i, wn, class, code, msg), c.text(i))
-		}
-		// streams opened: exactly by the frames before the failing one
-		for t := 0; t < 2; t++ {
-			_, nextOpen, _, _ := v.In(t == 1)
-			if wantOpen := smFirst(t == 1, !c.client) + 4*op[t]; nextOpen != wantOpen {
-				monfail("frame-handled-after-error", fmt.Sprintf("packet %d: after it nextStreamToOpen(uni=%v) is %d, expected %d: a frame behind the failing one was handled (or one before it was not)", i, t == 1, nextOpen, wantOpen), c.text(i))
+			t := b2i(f.Uni)
+			if f.Num != cur[t]+1 {
+				monfail("maxstreams/sequence", fmt.Sprintf("MAX_STREAMS(uni=%v) %d queued, %d was advertised before", f.Uni, f.Num, cur[t]))
 			}
+			cur[t] = f.Num
 		}
-		opened = op
-		if want != 0 {
-			dist[fmt.Sprintf("offending-%s-then-%d-frames", names[want], len(p)-bad-1)]++
+		if cur != sp.adv {
+			monfail("maxstreams/credit", fmt.Sprintf("advertised stream counts after this step %v, expected limit + completed streams = %v", cur, sp.adv))
 		}
-		if class != 0 {
-			errSeen = true
+	}
+	for _, st := range c.steps {
+		advBefore := sp.adv
+		switch st.kind {
+		case 0:
+			want, bad := 0, -1
+			trial := sp.clone()
+			for j, f := range st.frames {
+				if e := trial.expect(f); e != 0 {
+					want, bad = e, j
+					break
+				}
+			}
+			hist = append(hist, smgFramesText(st.frames))
+			packets++
+			class, code, _, msg := v.Packet(st.frames)
+			frames := v.FlushAck()
+			if code == -2 {
+				monfail("panic", msg)
+			}
+			switch {
+			case want != 0 && class == 0:
+				monfail("error-masked", fmt.Sprintf("%s must close the connection with %s, but the packet was handled without error", smgFrameText(st.frames[bad]), names[want]))
+			case want != class:
+				monfail("verdict", fmt.Sprintf("expected %s, got error class %d (code %d: %s)", names[want], class, code, msg))
+			}
+			*sp = *trial
+			for t := 0; t < 2; t++ {
+				_, nextOpen, _, _ := v.In(t == 1)
+				if wantOpen := smFirst(t == 1, !c.client) + 4*sp.opened[t]; nextOpen != wantOpen {
+					monfail("frame-handled-after-error", fmt.Sprintf("after this packet nextStreamToOpen(uni=%v) is %d, expected %d: a frame behind the failing one was handled (or one before it was not)", t == 1, nextOpen, wantOpen))
+				}
+			}
+			fs := make([]string, len(st.frames))
+			for j, f := range st.frames {
+				fs[j] = smgFrameCoq(f)
+			}
+			emit(u.App("SPacket", u.List(fs)), int64(class), frames)
+			checkCredit(frames, advBefore)
+			if want != 0 {
+				dist[fmt.Sprintf("offending-%s-then-%d-frames", names[want], len(st.frames)-bad-1)]++
+			}
+			if class != 0 {
+				failedPacket = true
+			}
+		case 1:
+			h, id, class := v.Accept(st.uni)
+			frames := v.FlushAck()
+			code := id
+			if h < 0 {
+				code = -int64(class)
+			} else {
+				held = append(held, smgHeld{h, id})
+			}
+			hist = append(hist, fmt.Sprintf("accept(uni=%v)=>%d", st.uni, code))
+			emit(u.App("SApp", u.App("GAAccept", u.B(st.uni))), code, frames)
+			checkCredit(frames, advBefore)
+		case 2:
+			if len(held) == 0 {
+				continue
+			}
+			pi := st.pick % len(held)
+			if st.pick < 0 {
+				pi = len(held) - 1 // the stream taken last
+			}
+			x := held[pi]
+			held = append(held[:pi:pi], held[pi+1:]...)
+			frames := v.Abandon(x.handle)
+			sp.cancel[x.id] = true
+			sp.complete(x.id)
+			hist = append(hist, fmt.Sprintf("abandon(%d)", x.id))
+			emit(u.App("SApp", u.App("GAAbandon", u.Z(x.id))), 0, frames)
+			checkCredit(frames, advBefore)
+		case 3:
+			t := b2i(st.uni)
+			h, id, class := v.Open(st.uni)
+			frames := v.FlushAck()
+			code := id
+			if h < 0 {
+				code = -int64(class)
+			}
+			switch {
+			case sp.reset:
+				if class != smErr0RTT {
+					monfail("open/after-0rtt-rejection", fmt.Sprintf("Open(uni=%v) after the 0-RTT rejection returned %d instead of Err0RTTRejected", st.uni, code))
+				}
+			case h >= 0:
+				if want := smFirst(st.uni, c.client) + 4*sp.out[t]; id != want {
+					monfail("open/id-sequence", fmt.Sprintf("Open(uni=%v) returned stream %d, expected %d", st.uni, id, want))
+				}
+				sp.out[t]++
+				if sp.out[t] > sp.peerMax[t] {
+					monfail("open/above-peer-limit", fmt.Sprintf("stream %d is number %d, the peer allows %d", id, sp.out[t], sp.peerMax[t]))
+				}
+				held = append(held, smgHeld{h, id})
+			default:
+				if class == smErrLimitReached && sp.out[t] < sp.peerMax[t] {
+					monfail("open/refused-below-limit", fmt.Sprintf("Open(uni=%v) failed with %d of %d streams opened", st.uni, sp.out[t], sp.peerMax[t]))
+				}
+			}
+			hist = append(hist, fmt.Sprintf("open(uni=%v)=>%d", st.uni, code))
+			emit(u.App("SApp", u.App("GAOpen", u.B(st.uni))), code, frames)
+			if h < 0 && class == smErrLimitReached && !sp.blocked[t][sp.peerMax[t]] {
+				monfail("blocked/missing", fmt.Sprintf("Open(uni=%v) failed at limit %d but no STREAMS_BLOCKED was queued for it", st.uni, sp.peerMax[t]))
+			}
+			checkCredit(frames, advBefore)
+		case 4:
+			if c.client && sp.out == [2]int64{} && sp.peerMax == [2]int64{} && !sp.reset {
+				v.Restore(st.nb, st.nu, st.rsa)
+			} else {
+				v.Apply(st.nb, st.nu, st.rsa)
+			}
+			frames := v.FlushAck()
+			if st.nb > sp.peerMax[0] {
+				sp.peerMax[0] = st.nb
+			}
+			if st.nu > sp.peerMax[1] {
+				sp.peerMax[1] = st.nu
+			}
+			hist = append(hist, fmt.Sprintf("params(%d,%d,%v)", st.nb, st.nu, st.rsa))
+			emit(u.App("SApp", u.App("GAParams", u.Z(st.nb), u.Z(st.nu), u.B(st.rsa))), 0, frames)
+			checkCredit(frames, advBefore)
+		case 5:
+			// 0-RTT is rejected before the client has received any 1-RTT packet
+			if !c.client || sp.reset || packets > 0 {
+				continue
+			}
+			class, msg := v.Reject0RTT()
+			if class != 0 {
+				monfail("reject-0rtt", "dropEncryptionLevel(0-RTT) failed: "+msg)
+			}
+			frames := v.FlushAck()
+			old = append(old, held...)
+			held = nil
+			*sp = smgSpec{client: c.client, limit: c.limit, adv: c.limit, blocked: [2]map[int64]bool{{}, {}},
+				cancel: map[int64]bool{}, final: map[int64]bool{}, done: map[int64]bool{}, reset: true}
+			advBefore = sp.adv
+			hist = append(hist, "reject-0rtt")
+			emit(u.App("SApp", "GAReject0RTT"), 0, frames)
+			checkCredit(frames, advBefore)
+			dist["with-0rtt-rejection"]++
+		case 6:
+			if !sp.reset {
+				continue
+			}
+			v.UseReset()
+			sp.reset = false
+			hist = append(hist, "use-reset-maps")
+			emit(u.App("SApp", "GAUseReset"), 0, v.FlushAck())
+		case 7:
+			if len(old) == 0 {
+				continue
+			}
+			x := old[st.pick%len(old)]
+			frames := v.Abandon(x.handle)
+			hist = append(hist, fmt.Sprintf("abandon-old(%d)", x.id))
+			emit(u.App("SApp", "GAOldStream"), 0, frames)
+			// a stream of before the rejection must not touch the new maps
+			checkCredit(frames, advBefore)
+			dist["old-stream-abandoned-after-rejection"]++
+		}
+		if cw := v.ClosedWith(); cw != 0 && !failedPacket {
+			monfail("closed-by-completion", fmt.Sprintf("the connection closed itself with error class %d although no packet failed (DeleteStream of a completed stream failed?)", cw))
+		}
+		if failedPacket {
 			break // the connection is closed
 		}
 	}
-	snap := func(uni bool) string {
-		a, o, m, n := v.In(uni)
-		return u.Pair(u.Z(a), u.Z(o), u.Z(m), u.Z(n))
+	snapIn := func(uni bool) string {
+		s := v.InFull(uni)
+		ss := make([]string, len(s.Streams))
+		for i, e := range s.Streams {
+			ss[i] = u.Pair(u.Z(e[0]), u.B(e[1] == 1))
+		}
+		return u.Pair(u.Z(s.NextAccept), u.Z(s.NextOpen), u.Z(s.Max), u.List(ss))
 	}
-	vs := make([]string, len(verdicts))
-	for i, x := range verdicts {
-		vs[i] = u.Z(x)
+	snapOut := func(uni bool) string {
+		s := v.OutFull(uni)
+		return u.Pair(u.Z(s.Next), u.Z(s.Max), u.B(s.BlockedSent), u.ZList(s.Streams))
 	}
 	nt := 0
-	if errSeen {
+	if failedPacket || completions > 0 {
 		nt = 1
 	}
-	fmt.Fprintf(w, "CASE %d %s\n", nt, u.App("GlueCase", u.B(c.client), u.B(c.tracer), u.Z(c.limit[0]), u.Z(c.limit[1]), u.List(pk), u.List(vs), snap(false), snap(true)))
+	fmt.Fprintf(w, "CASE %d %s\n", nt, u.App("GlueCase", u.B(c.client), u.B(c.tracer), u.Z(c.limit[0]), u.Z(c.limit[1]),
+		u.List(steps), u.List(outs), snapIn(false), snapIn(true), snapOut(false), snapOut(true)))
 	dist["cases"]++
+	dist["streams-completed-through-the-connection"] += completions
 	if c.tracer {
 		dist["with-tracer"]++
 	}
 }
 
+func smgPacketStep(fs ...quic.VerifSGFrame) smgStep { return smgStep{kind: 0, frames: fs} }
+
 func runStreamsGlue(w *bufio.Writer, seed uint64, n int, _ []string) {
 	r := u.NewRng(seed)
 	dist := map[string]int{}
 	failed := map[string]bool{}
-	// the table of the offending frames, each followed by a valid STREAM frame in the same packet
+	for _, clientViolates := range []bool{true, false} {
+		for _, tracer := range []bool{false, true} {
+			smgSim(w, clientViolates, tracer, !clientViolates)
+			dist["simulated-connections"]++
+		}
+	}
 	for _, client := range []bool{false, true} {
 		for _, tracer := range []bool{false, true} {
 			pb, pu := smFirst(false, !client), smFirst(true, !client)
 			lb, lu := smFirst(false, client), smFirst(true, client)
 			valid := quic.VerifSGFrame{Kind: smgStream, ID: pb}
+			// the table of the offending frames, each followed by a valid STREAM frame in the same packet
 			for _, off := range []quic.VerifSGFrame{
 				{Kind: smgStream, ID: pb + 4*2}, {Kind: smgStream, ID: pu + 4*2}, {Kind: smgResetStream, ID: pu + 4*2},
-				{Kind: smgStreamDataBlocked, ID: pb + 4*2}, {Kind: smgMaxStreamData, ID: pb + 4*2},
+				{Kind: smgStreamDataBlocked, ID: pb + 4*2}, {Kind: smgMaxStreamData, ID: pb + 4*2}, {Kind: smgStreamFin, ID: pb + 4*2},
 				{Kind: smgStream, ID: lu}, {Kind: smgStream, ID: lb}, {Kind: smgResetStream, ID: lu},
 				{Kind: smgStopSending, ID: pu}, {Kind: smgMaxStreamData, ID: lb}, {Kind: smgStopSending, ID: lu},
 			} {
-				smgRun(w, smgCase{client, tracer, [2]int64{2, 2}, [][]quic.VerifSGFrame{{off, valid}}}, dist, failed)
-				smgRun(w, smgCase{client, tracer, [2]int64{2, 2}, [][]quic.VerifSGFrame{{valid}, {{Kind: smgPing}, off, valid, valid}}}, dist, failed)
+				smgRun(w, smgCase{client, tracer, [2]int64{2, 2}, []smgStep{smgPacketStep(off, valid)}}, dist, failed)
+				smgRun(w, smgCase{client, tracer, [2]int64{2, 2}, []smgStep{smgPacketStep(valid), smgPacketStep(quic.VerifSGFrame{Kind: smgPing}, off, valid, valid)}}, dist, failed)
 			}
+			// completion through the connection: the slot of a finished stream is re-issued, for both
+			// types, by the abandon (final size already known) and by the FIN / RESET_STREAM (abandoned before)
+			for _, uni := range []bool{false, true} {
+				p0 := pb
+				if uni {
+					p0 = pu
+				}
+				for _, fin := range []int{smgStreamFin, smgResetStream} {
+					open := smgPacketStep(quic.VerifSGFrame{Kind: smgStream, ID: p0})
+					final := quic.VerifSGFrame{Kind: fin, ID: p0}
+					next := quic.VerifSGFrame{Kind: smgStream, ID: p0 + 4}
+					acc := smgStep{kind: 1, uni: uni}
+					ab := smgStep{kind: 2}
+					smgRun(w, smgCase{client, tracer, [2]int64{1, 1}, []smgStep{open, acc, smgPacketStep(final), ab, smgPacketStep(next), smgPacketStep(quic.VerifSGFrame{Kind: smgStream, ID: p0 + 8})}}, dist, failed)
+					smgRun(w, smgCase{client, tracer, [2]int64{1, 1}, []smgStep{open, acc, ab, smgPacketStep(final, next), acc, smgPacketStep(final)}}, dist, failed)
+					smgRun(w, smgCase{client, tracer, [2]int64{1, 1}, []smgStep{open, smgPacketStep(final), smgPacketStep(next)}}, dist, failed) // not accepted: no credit
+				}
+			}
+			// opening through the connection: limit, STREAMS_BLOCKED once per limit, MAX_STREAMS frame raises it
+			for _, uni := range []bool{false, true} {
+				op := smgStep{kind: 3, uni: uni}
+				smgRun(w, smgCase{client, tracer, [2]int64{1, 1}, []smgStep{op, {kind: 4, nb: 1, nu: 1}, op, op, op,
+					smgPacketStep(quic.VerifSGFrame{Kind: smgMaxStreams, Uni: uni, ID: 2}), op, op, {kind: 2}, {kind: 2}}}, dist, failed)
+			}
+		}
+		// 0-RTT rejected: streams opened during 0-RTT are gone, IDs restart, old stream objects are inert
+		if client {
+			op := smgStep{kind: 3}
+			opu := smgStep{kind: 3, uni: true}
+			smgRun(w, smgCase{true, false, [2]int64{2, 2}, []smgStep{{kind: 4, nb: 2, nu: 2}, op, opu, op, {kind: 5}, op, {kind: 7}, {kind: 7, pick: 1},
+				{kind: 6}, op, {kind: 4, nb: 1, nu: 1}, op, opu, op, {kind: 7, pick: 2}, {kind: 2}, {kind: 2}}}, dist, failed)
 		}
 	}
 	for i := 0; i < n; i++ {
 		c := smgCase{client: r.Bool(), tracer: r.Bool(), limit: [2]int64{r.Pick(0, 1, 2, 2, 3), r.Pick(0, 1, 2, 2, 3)}}
-		var opened [2]int64
-		for p, np := 0, r.Range(1, 5); p < np; p++ {
-			var pkt []quic.VerifSGFrame
-			for f, nf := 0, r.Range(1, 4); f < nf; f++ {
-				uni, byClient := r.Bool(), r.Bool()
-				local := byClient == c.client
-				t := b2i(uni)
-				first := smFirst(uni, byClient)
-				var fr quic.VerifSGFrame
-				switch k := r.Intn(20); {
-				case k < 9: // a STREAM frame for the peer's next / an open / the last allowed stream
-					if local {
-						byClient, local, first = !byClient, false, smFirst(uni, !byClient)
+		benign := r.Chance(1, 2) // mostly well-behaved peer: long lives, many completions
+		var opened, out [2]int64 // rough idea of the state, for choosing IDs near the boundaries
+		adv := c.limit
+		if r.Chance(2, 3) {
+			c.steps = append(c.steps, smgStep{kind: 4, nb: r.Pick(0, 1, 2, 3), nu: r.Pick(0, 1, 2, 3), rsa: r.Chance(1, 3)})
+		}
+		for p, np := 0, r.Range(2, 10); p < np; p++ {
+			switch k := r.Intn(20); {
+			case k < 9:
+				var pkt []quic.VerifSGFrame
+				for f, nf := 0, r.Range(1, 4); f < nf; f++ {
+					uni, byClient := r.Bool(), r.Bool()
+					local := byClient == c.client
+					t := b2i(uni)
+					first := smFirst(uni, byClient)
+					var fr quic.VerifSGFrame
+					k := r.Intn(20)
+					if benign && k >= 14 {
+						k = r.Intn(14)
 					}
-					idx := opened[t] + r.Pick(-1, 0, 0, 0, 1)
-					if r.Chance(1, 4) {
-						idx = c.limit[t] + r.Pick(-1, 0, 1)
+					switch {
+					case k < 7: // a STREAM frame for the peer's next / an open / the last allowed stream
+						if local {
+							byClient, local, first = !byClient, false, smFirst(uni, !byClient)
+						}
+						idx := opened[t] + r.Pick(-1, 0, 0, 0, 1)
+						if r.Chance(1, 4) {
+							idx = adv[t] + r.Pick(-1, 0, 1)
+						}
+						if benign && idx >= adv[t] {
+							idx = adv[t] - 1
+						}
+						if idx < 0 {
+							idx = 0
+						}
+						fr = quic.VerifSGFrame{Kind: smgStream, ID: first + 4*idx}
+						if idx < adv[t] && idx >= opened[t] {
+							opened[t] = idx + 1
+						}
+					case k < 11: // the final size of an open stream
+						if local && uni {
+							local, first = false, smFirst(uni, !byClient)
+						}
+						n := opened[t]
+						if local {
+							n = out[t]
+						}
+						idx := int64(0)
+						if n > 0 {
+							idx = int64(r.Intn(int(n)))
+						}
+						fr = quic.VerifSGFrame{Kind: []int{smgStreamFin, smgResetStream}[r.Intn(2)], ID: first + 4*idx}
+					case k < 12:
+						fr = quic.VerifSGFrame{Kind: smgPing}
+					case k < 14:
+						fr = quic.VerifSGFrame{Kind: smgMaxStreams, Uni: uni, ID: r.Pick(0, 1, 2, 3, 5)}
+					default: // any stream-related frame for any class of ID, around the boundaries
+						kind := []int{smgStream, smgResetStream, smgStreamDataBlocked, smgStopSending, smgMaxStreamData, smgStreamFin}[r.Intn(6)]
+						base := []int64{0, opened[t], adv[t] - 1, adv[t], adv[t] + 1}
+						if local {
+							base = []int64{0, out[t] - 1, out[t], out[t] + 1}
+						}
+						idx := r.Pick(0, 0, 1) + base[r.Intn(len(base))]
+						if idx < 0 {
+							idx = 0
+						}
+						fr = quic.VerifSGFrame{Kind: kind, ID: first + 4*idx}
 					}
-					if idx < 0 {
-						idx = 0
-					}
-					fr = quic.VerifSGFrame{Kind: smgStream, ID: first + 4*idx}
-				case k < 10:
-					fr = quic.VerifSGFrame{Kind: smgPing}
-				case k < 11:
-					fr = quic.VerifSGFrame{Kind: smgMaxStreams, Uni: uni, ID: r.Pick(0, 1, 2, 5)}
-				default: // any stream-related frame for any class of ID, around the boundaries
-					kind := []int{smgStream, smgResetStream, smgStreamDataBlocked, smgStopSending, smgMaxStreamData}[r.Intn(5)]
-					idx := r.Pick(0, 0, 1) + r.Pick(0, opened[t], c.limit[t]-1, c.limit[t], c.limit[t]+1)
-					if idx < 0 {
-						idx = 0
-					}
-					// a RESET_STREAM for an open stream would complete it: keep those beyond the limit
-					if kind == smgResetStream && !local && idx < c.limit[t] {
-						idx = c.limit[t] + 1
-					}
-					fr = quic.VerifSGFrame{Kind: kind, ID: first + 4*idx}
+					pkt = append(pkt, fr)
 				}
-				pkt = append(pkt, fr)
-			}
-			c.pkts = append(c.pkts, pkt)
-			// keep the generator's idea of what is open roughly right (exact value is the monitor's job)
-			op := opened
-			for _, f := range pkt {
-				if smgExpect(c.client, c.limit, &op, f) != 0 {
-					break
+				c.steps = append(c.steps, smgStep{kind: 0, frames: pkt})
+			case k < 12:
+				c.steps = append(c.steps, smgStep{kind: 1, uni: r.Bool()})
+			case k < 15:
+				c.steps = append(c.steps, smgStep{kind: 2, pick: r.Intn(8)})
+				if !benign {
+					adv[0]++ // optimistic: lets the generator probe the raised limit
+					adv[1]++
 				}
+			case k < 17:
+				uni := r.Bool()
+				c.steps = append(c.steps, smgStep{kind: 3, uni: uni})
+				out[b2i(uni)]++
+			case k < 18:
+				c.steps = append(c.steps, smgStep{kind: 4, nb: r.Pick(0, 1, 2, 3, 4), nu: r.Pick(0, 1, 2, 3, 4), rsa: r.Chance(1, 3)})
+			case k < 19:
+				c.steps = append(c.steps, smgStep{kind: 5}, smgStep{kind: []int{6, 7, 3}[r.Intn(3)], pick: r.Intn(4)})
+				opened, out, adv = [2]int64{}, [2]int64{}, c.limit
+			default:
+				c.steps = append(c.steps, smgStep{kind: []int{6, 7}[r.Intn(2)], pick: r.Intn(4)})
 			}
-			opened = op
+		}
+		smgRun(w, c, dist, failed)
+	}
+	// whole stream lives: the peer opens stream after stream of one type up to and beyond the limit
+	// while the application accepts and finishes them in changing orders
+	for i := 0; i < n/2; i++ {
+		c := smgCase{client: r.Bool(), tracer: r.Bool(), limit: [2]int64{r.Pick(1, 1, 2, 3), r.Pick(1, 1, 2, 3)}}
+		uni := r.Bool()
+		first := smFirst(uni, !c.client)
+		if r.Bool() {
+			c.steps = append(c.steps, smgStep{kind: 4, nb: r.Pick(1, 2), nu: r.Pick(1, 2)})
+		}
+		for k, rounds := int64(0), int64(r.Range(2, 6)); k < rounds; k++ {
+			id := first + 4*k
+			c.steps = append(c.steps, smgPacketStep(quic.VerifSGFrame{Kind: smgStream, ID: id}), smgStep{kind: 1, uni: uni})
+			final := smgPacketStep(quic.VerifSGFrame{Kind: []int{smgStreamFin, smgResetStream}[r.Intn(2)], ID: id})
+			if r.Chance(1, 3) { // the next stream rides in the same packet as the FIN
+				final.frames = append(final.frames, quic.VerifSGFrame{Kind: smgStream, ID: id + 4})
+			}
+			ab := smgStep{kind: 2, pick: -1}
+			switch r.Intn(4) {
+			case 0:
+				c.steps = append(c.steps, final, ab)
+			case 1:
+				c.steps = append(c.steps, ab, final)
+			case 2:
+				c.steps = append(c.steps, final) // never abandoned: the slot stays taken
+			default:
+				c.steps = append(c.steps, ab, smgStep{kind: 3, uni: r.Bool()}, final)
+			}
+			if r.Chance(1, 4) {
+				c.steps = append(c.steps, smgPacketStep(quic.VerifSGFrame{Kind: smgStream, ID: id})) // a late frame for the finished stream
+			}
 		}
 		smgRun(w, c, dist, failed)
 	}
@@ -277,5 +647,132 @@ func runStreamsGlue(w *bufio.Writer, seed uint64, n int, _ []string) {
 	sort.Strings(keys)
 	for _, k := range keys {
 		fmt.Fprintf(w, "DIST\t%s\t%d\n", k, dist[k])
+	}
+}
+
+// smgSim: a whole simulated connection (real client, real server, simnet inside a synctest bubble).
+// One endpoint is misled about its peer's stream limit (1) and opens a second stream; it writes on
+// the stream beyond the limit first and on the valid stream second, so both STREAM frames travel
+// in one packet: [STREAM beyond the limit][valid STREAM]. The enforcing endpoint has a qlog tracer
+// or not. Monitor: the enforcing endpoint closes the connection with STREAM_LIMIT_ERROR, the
+// violator learns it from the CONNECTION_CLOSE on the wire, and the stream beyond the limit is
+// never handed to the application.
+func smgSim(w *bufio.Writer, clientViolates, tracer, uni bool) {
+	detail := fmt.Sprintf("simulated connection: violator=%s enforcing-endpoint-has-qlog-tracer=%v uni=%v; the peer allows 1 stream; the violator opens 2, writes on the 2nd, then on the 1st (one packet: [STREAM beyond the limit][valid STREAM])",
+		map[bool]string{true: "client", false: "server"}[clientViolates], tracer, uni)
+	fail := func(key, desc string) {
+		fmt.Fprintf(w, "MONFAIL\tstreamsglue/sim/%s\t%s\t%s\n", key, desc, detail)
+	}
+	err := inBubble(func() {
+		enf := &quic.Config{MaxIncomingStreams: 1, MaxIncomingUniStreams: 1}
+		if tracer {
+			enf.Tracer = func(context.Context, bool, quic.ConnectionID) qlogwriter.Trace { return quic.VerifSGNewTrace() }
+		}
+		vio := &quic.Config{}
+		o := simOpts{PlainPath: true, ServerConf: enf, ClientConf: vio}
+		if !clientViolates {
+			o.ServerConf, o.ClientConf = vio, enf
+		}
+		e, err := newSimEnv(o)
+		if err != nil {
+			fail("setup", err.Error())
+			return
+		}
+		defer e.Close()
+		ctx, cancel := context.WithTimeout(context.Background(), 5*time.Second)
+		defer cancel()
+		var srv *quic.Conn
+		acc := make(chan struct{})
+		go func() {
+			defer close(acc)
+			srv, _ = e.Ln.Accept(ctx)
+		}()
+		cli, err := e.Dial(ctx)
+		if err != nil {
+			fail("setup", "dial: "+err.Error())
+			return
+		}
+		<-acc
+		if srv == nil {
+			fail("setup", "accept failed")
+			return
+		}
+		select {
+		case <-cli.HandshakeComplete():
+		case <-ctx.Done():
+		}
+		violator, enforcer := cli, srv
+		if !clientViolates {
+			violator, enforcer = srv, cli
+		}
+		time.Sleep(100 * time.Millisecond)
+		quic.VerifSGMisleadLimit(violator, uni, 2)
+		type wr interface{ Write([]byte) (int, error) }
+		var s1, s2 wr
+		var e1, e2 error
+		if uni {
+			s1, e1 = violator.OpenUniStream()
+			s2, e2 = violator.OpenUniStream()
+		} else {
+			s1, e1 = violator.OpenStream()
+			s2, e2 = violator.OpenStream()
+		}
+		if e1 != nil || e2 != nil {
+			fail("setup", fmt.Sprintf("open: %v %v", e1, e2))
+			return
+		}
+		// the application of the enforcing endpoint accepts whatever it is given
+		var got []int64
+		var mu sync.Mutex
+		actx, acancel := context.WithCancel(context.Background())
+		defer acancel()
+		go func() {
+			for {
+				var id int64
+				if uni {
+					s, err := enforcer.AcceptUniStream(actx)
+					if err != nil {
+						return
+					}
+					id = int64(s.StreamID())
+				} else {
+					s, err := enforcer.AcceptStream(actx)
+					if err != nil {
+						return
+					}
+					id = int64(s.StreamID())
+				}
+				mu.Lock()
+				got = append(got, id)
+				mu.Unlock()
+			}
+		}()
+		s2.Write([]byte("beyond the limit"))
+		s1.Write([]byte("valid"))
+		time.Sleep(2 * time.Second)
+		synctest.Wait()
+		_, ec, etext := quic.VerifSGCloseClass(context.Cause(enforcer.Context()))
+		vr, vc, vtext := quic.VerifSGCloseClass(context.Cause(violator.Context()))
+		if enforcer.Context().Err() == nil {
+			fail("limit-violation-not-closed", "the peer used a stream beyond the advertised limit, but the connection stays open")
+		} else if ec != 2 {
+			fail("wrong-close-error", "the enforcing endpoint closed with "+etext+" instead of STREAM_LIMIT_ERROR")
+		}
+		if violator.Context().Err() != nil && !(vr && vc == 2) {
+			fail("peer-not-told", "the violator's connection ended with "+vtext+" instead of the peer's STREAM_LIMIT_ERROR")
+		}
+		mu.Lock()
+		for _, id := range got {
+			if id/4 >= 1 {
+				fail("stream-delivered-beyond-limit", fmt.Sprintf("stream %d (beyond the limit of 1) was handed to the application", id))
+			}
+		}
+		mu.Unlock()
+		acancel()
+		cli.CloseWithError(0, "")
+		srv.CloseWithError(0, "")
+	})
+	if err != nil {
+		fail("bubble", err.Error())
 	}
 }
